@@ -1657,6 +1657,17 @@ impl<'s> Worker<'s> {
     /// The worker will call the caller's callback for all entries that aren't
     /// skipped by the ignore matcher.
     fn run(mut self) {
+        #[cfg(ripgrep_verif)]
+        {
+            let stealers = self.stack.stealers.clone();
+            let quit_now = self.quit_now.clone();
+            let active_workers = self.active_workers.clone();
+            verif::register_shared(Arc::new(move || verif::Snapshot {
+                active_workers: active_workers.load(AtomicOrdering::SeqCst),
+                quit_now: quit_now.load(AtomicOrdering::SeqCst),
+                deque_lens: stealers.iter().map(|s| s.len()).collect(),
+            }));
+        }
         while let Some(work) = self.get_work() {
             if let WalkState::Quit = self.run_one(work) {
                 self.quit_now();
@@ -1826,6 +1837,8 @@ impl<'s> Worker<'s> {
     /// should then subsequently quit.
     fn get_work(&mut self) -> Option<Work> {
         let mut value = self.recv();
+        #[cfg(ripgrep_verif)]
+        verif::received(self.stack.index, self.verif_received(value.as_ref()));
         loop {
             // Simulate a priority channel: If quit_now flag is set, we can
             // receive only quit messages.
@@ -1857,6 +1870,11 @@ impl<'s> Worker<'s> {
                     // Wait for next `Work` or `Quit` message.
                     loop {
                         if let Some(v) = self.recv() {
+                            #[cfg(ripgrep_verif)]
+                            verif::received(
+                                self.stack.index,
+                                self.verif_received(Some(&v)),
+                            );
                             self.activate_worker();
                             value = Some(v);
                             break;
@@ -1871,6 +1889,18 @@ impl<'s> Worker<'s> {
                         std::thread::sleep(dur);
                     }
                 }
+            }
+        }
+    }
+
+    /// Describes what `recv` returned, for the verification hooks.
+    #[cfg(ripgrep_verif)]
+    fn verif_received(&self, value: Option<&Message>) -> verif::Received {
+        match value {
+            None => verif::Received::Nothing,
+            Some(Message::Quit) => verif::Received::Quit,
+            Some(Message::Work(work)) => {
+                verif::Received::Work(work.dent.path().to_path_buf())
             }
         }
     }
